@@ -34,6 +34,20 @@ class Item:
         return self.name
 
 
+@dataclasses.dataclass(frozen=True)
+class Money:
+    """a value object whose format() text differs from its str() text (as Decimal-like / unit classes do):
+    f"{x}" and "{node.data}".format(node=...) show format(x, ""), str(x) and node.name's f-string likewise"""
+
+    name: str
+
+    def __str__(self):
+        return "s<" + self.name + ">"
+
+    def __format__(self, spec):
+        return format("f<" + self.name + ">", spec)
+
+
 class Person:
     """Plain (identity-hashed) object carrying a guid, as in the user guide."""
 
@@ -90,13 +104,14 @@ class HDict(dict):
 _ODD_INTS = {"e": 2**62 + 11, "f": -1, "~f": -2}
 
 FLAVOURS = ["str", "int", "tuple", "dc", "dictwrap", "obj_cb", "obj_sub", "dict_explicit", "obj_fwd", "dict_cb"]
+FLAVOURS_ALL = FLAVOURS + ["money"]
 
 
 class Flavour:
     """One per case: owns the pool label -> shared data object."""
 
     def __init__(self, name: str = "str"):
-        assert name in FLAVOURS, name
+        assert name in FLAVOURS_ALL, name
         self.name = name
         self.pool: dict[str, object] = {}
         self.labels: dict[int, str] = {}  # id(data) -> label (for non-str data)
@@ -132,6 +147,8 @@ class Flavour:
             return tuple([label])
         if n == "dc":
             return Item(label)
+        if n == "money":
+            return Money(label)
         if n == "dictwrap":
             shared = self.pool.get(label)
             # labels sharing the first letter get dicts of EQUAL CONTENT that are distinct objects: DictWrapper is
